@@ -912,3 +912,7 @@ def gen_err_codes():
         out += "def %s : Nat := %d\n" % (nm, vals[nm])
     out += "\nend XV.Gen.ErrCodes\n"
     return out
+
+
+# ---- C16 (builder) ----
+import translate_ser  # noqa  (registers SerConsts; imports translate_serops -> SerializeOps)
